@@ -79,6 +79,14 @@ func runC19(e *Env) error {
 	vals := boundaryU64(r, nr)
 	nt := func(v uint64) bool { return v > 3 }
 
+	// MinU64 / MaxU64 on neighbouring boundary values (used by the churn limit and the committee clamp)
+	for i := 0; i+1 < len(vals) && i < 400; i++ {
+		for _, pr := range [][2]uint64{{vals[i], vals[i+1]}, {vals[i], vals[i]}, {vals[i+1], vals[i]}, {vals[i], vals[i] + 1}} {
+			a, b := pr[0], pr[1]
+			mn, mx := zmath.MinU64(a, b), zmath.MaxU64(a, b)
+			e.Add(Case{Coq: fmt.Sprintf("CMinMax %d %d %d %d", a, b, mn, mx), Kind: "minmax", NonTrivial: a != b, JSON: map[string]interface{}{"fn": "MinU64/MaxU64", "a": fmt.Sprint(a), "b": fmt.Sprint(b), "min": fmt.Sprint(mn), "max": fmt.Sprint(mx)}})
+		}
+	}
 	for _, n := range vals {
 		var res uint64
 		p, _ := Catch(func() { res = zmath.IntegerSquareroot(n) })
@@ -122,6 +130,11 @@ func runC19(e *Env) error {
 				res, err := spec.TimeAtSlot(common.Slot(s), common.Timestamp(g))
 				e.Add(Case{Coq: fmt.Sprintf("CTimeAtSlot %d %d %d %s", sps, s, g, CoqGoResN(uint64(res), err, false)), Kind: "time_at_slot", NonTrivial: s > 0, JSON: map[string]interface{}{"fn": "TimeAtSlot", "sps": sps, "slot": fmt.Sprint(s), "genesis": fmt.Sprint(g), "go": fmt.Sprint(uint64(res)), "err": err != nil}})
 			}
+		}
+		// SlotToEpoch directly (EpochStartSlot uses it internally, but its own floor is a separate claim)
+		for _, sl := range []uint64{0, 1, spe - 1, spe, spe + 1, 2*spe - 1, 2 * spe, max, max - 1, max - spe, max / spe * spe, max/spe*spe - 1, r.U64(), r.U64() >> 20, uint64(r.Intn(1 << 20))} {
+			res := uint64(spec.SlotToEpoch(common.Slot(sl)))
+			e.Add(Case{Coq: fmt.Sprintf("CSlotToEpoch %d %d %d", spe, sl, res), Kind: "slot_to_epoch", NonTrivial: sl >= spe, JSON: map[string]interface{}{"fn": "SlotToEpoch", "spe": spe, "slot": fmt.Sprint(sl), "go": fmt.Sprint(res)}})
 		}
 		// EpochStartSlot around its overflow point
 		m := max / spe
